@@ -30,4 +30,28 @@ def decodeAll : Nat → Stream → List Bytes × Option ReadErr
     | .error e => ([], some e)
     | .ok (m, c') => let (ms, e) := decodeAll fuel c'; (m :: ms, e)
 
+/-! ### The connection loop of `ServeTCP` under read deadlines
+
+What the server reads from one connection is a list of *segments*: a segment is the chunked stream that arrives
+before a read deadline fires; the next segment is what arrives afterwards (the client went on sending). Where the
+deadlines fall is up to the environment (any list of segments with the same bytes). `io.ReadFull` has no memory: a
+read that is cut short by the deadline has consumed the bytes of its segment and they are gone.
+
+`serve resume` is the loop `for { set deadline; req, err := ReadMsgFromTCP(c); if err != nil { ... }; go handle(req) }`
+and returns the messages handed to the handler, in order. On an error: `ErrPayloadTooSmall` always ends the
+connection; running out of bytes inside the segment is `io.EOF` if nothing follows and a deadline error otherwise:
+with `resume = false` (the source: fact `c16ReadErrEndsConn`) the loop returns, with `resume = true` it starts a new
+read at the current position of the stream. -/
+def serve (resume : Bool) : Nat → List Stream → List Bytes
+  | 0, _ => []
+  | _, [] => []
+  | fuel + 1, seg :: rest =>
+    match readRaw seg with
+    | .ok (m, seg') => m :: serve resume fuel (seg' :: rest)
+    | .error .tooSmall => []
+    | .error _ => if resume && !rest.isEmpty then serve resume fuel rest else []
+
+/-- The byte stream a client produces for a list of messages. -/
+def enc (ms : List Bytes) : Bytes := (ms.map (fun m => hdr m.length ++ m)).flatten
+
 end Model.C16
